@@ -285,8 +285,10 @@ class HeatConsumer(BranchWOInternalsComponent):
 
         res_table = net["res_" + cls.table_name()]
 
-        res_table['qext_w'].values[:] = branch_pit[f:t, QEXT]
+        # only heat consumers that take part in the calculation report results
+        connected = get_lookup(net, "branch", "active_hydraulics")[f:t]
+        res_table['qext_w'].values[connected] = branch_pit[f:t, QEXT][connected]
         from_nodes = get_from_nodes_corrected(branch_pit[f:t])
         t_from = node_pit[from_nodes, TINIT]
         tout = branch_pit[f:t, TOUTINIT]
-        res_table['deltat_k'].values[:] = t_from - tout
+        res_table['deltat_k'].values[connected] = (t_from - tout)[connected]
